@@ -6,6 +6,7 @@ package harness
 
 import (
 	"encoding/json"
+	"strings"
 	"testing"
 )
 
@@ -63,5 +64,55 @@ func TestC02Text(t *testing.T) {
 		}
 	}
 	rec3("", depth)
+	// deeper, with the few characters each grammar branches on, in the members that carry that grammar only
+	deep := []struct {
+		origins  string
+		alphabet []string
+		quick    int
+		thorough int
+	}{
+		{"text-mediatype text-mediatype-resource", []string{"a", "/", "+", ";", "="}, 6, 8},
+		{"text-node text-node-pp", []string{"a", "@", "/", "."}, 7, 9},
+		{"text-uri text-uri-response", []string{"a", "/", ":", "?", "%2F", "@"}, 5, 7},
+	}
+	for _, dp := range deep {
+		var hosts []int
+		for i, h := range c02TextHosts {
+			for _, o := range strings.Fields(dp.origins) {
+				if h.origin == o {
+					hosts = append(hosts, i)
+				}
+			}
+		}
+		d := dp.quick
+		if Thorough() {
+			d = dp.thorough
+		}
+		var walk func(prefix string, d int)
+		walk = func(prefix string, d int) {
+			if prefix != "" {
+				q, _ := json.Marshal(prefix)
+				for _, hi := range hosts {
+					item++
+					if item%nsh != sh {
+						continue
+					}
+					h := c02TextHosts[hi]
+					b := []byte(h.before + string(q) + h.after)
+					o := &Outcome{NonTrivial: true}
+					o.Class("origin=" + h.origin + "-deep")
+					judgeDecode(b, o)
+					rec.Eval(newC02Case(b, h.origin+"-deep"), o)
+				}
+			}
+			if d == 0 {
+				return
+			}
+			for _, p := range dp.alphabet {
+				walk(prefix+p, d-1)
+			}
+		}
+		walk("", d)
+	}
 	rec.Note("exhaustive", "true")
 }
